@@ -53,7 +53,7 @@ theorem rs_reconstruct_errors_negative (k m : Nat) (d p : List Bytes) (ms : List
 
 theorem decode_exact_or_error_rs (env : Env) (k m ct : Nat) (hk : 1 ≤ k) (hkm : k + m ≤ 32) (hct : ct < 256)
     (hlv : env.libver < 2 ^ 32) (hl0 : env.libver ≠ 0)
-    (data : Bytes) (hlen : data.length < 2 ^ 31 - 2 ^ 12) (enc frags : List Bytes)
+    (data : Bytes) (enc frags : List Bytes)
     (henc : encode env (rsBackend (genEntry k) k m) (rsInst k m ct) data = .ok enc)
     (hsub : ∀ f ∈ frags, f ∈ enc) (force : Bool) :
     decode env (rsBackend (genEntry k) k m) (rsInst k m ct) frags (80 + blockSize (rsInst k m ct) data.length) force = .ok data ∨
@@ -61,11 +61,11 @@ theorem decode_exact_or_error_rs (env : Env) (k m ct : Nat) (hk : 1 ≤ k) (hkm 
         = .error (.rc e) ∧ e < 0 :=
   decode_exact_or_error env _ (rsInst k m ct) data enc frags (rs_encodeOK k m) (rs_decodeSound (by omega))
     (rs_decode_errors_negative k m) (blockSize_even _ _ hk rfl)
-    (rs_frontOK env k m ct data.length hk hkm hct hlv hl0 hlen) henc hsub force
+    (rs_frontOK_guard env k m ct data.length hk hkm hct hlv hl0 (encodeTooLarge_false_of_ok henc)) henc hsub force
 
 theorem reconstruct_exact_or_error_rs (env : Env) (k m ct : Nat) (hk : 1 ≤ k) (hkm : k + m ≤ 32) (hct : ct < 256)
     (hlv : env.libver < 2 ^ 32) (hl0 : env.libver ≠ 0)
-    (data : Bytes) (hlen : data.length < 2 ^ 31 - 2 ^ 12) (enc frags : List Bytes)
+    (data : Bytes) (enc frags : List Bytes)
     (henc : encode env (rsBackend (genEntry k) k m) (rsInst k m ct) data = .ok enc)
     (hsub : ∀ f ∈ frags, f ∈ enc) (dest : Int) :
     reconstruct env (rsBackend (genEntry k) k m) (rsInst k m ct) frags (80 + blockSize (rsInst k m ct) data.length) dest
@@ -74,12 +74,12 @@ theorem reconstruct_exact_or_error_rs (env : Env) (k m ct : Nat) (hk : 1 ≤ k) 
         (80 + blockSize (rsInst k m ct) data.length) dest = .error (.rc e) ∧ e < 0 :=
   reconstruct_exact_or_error env _ (rsInst k m ct) data enc frags (rs_encodeOK k m) (rs_decodeSound (by omega))
     (rs_reconstruct_errors_negative k m) (blockSize_even _ _ hk rfl)
-    (rs_frontOK env k m ct data.length hk hkm hct hlv hl0 hlen) henc hsub dest
+    (rs_frontOK_guard env k m ct data.length hk hkm hct hlv hl0 (encodeTooLarge_false_of_ok henc)) henc hsub dest
 
 theorem decode_exact_or_error_xor (env : Env) (k m hd ct : Nat) (T : XorTable)
     (hT : LecGen.xorTableFor hd m k = some T) (hct : ct < 256)
     (hlv : env.libver < 2 ^ 32) (hl0 : env.libver ≠ 0)
-    (data : Bytes) (hlen : data.length < 2 ^ 31 - 2 ^ 12) (enc frags : List Bytes)
+    (data : Bytes) (enc frags : List Bytes)
     (henc : encode env (xorBackend T) (xorInst k m ct) data = .ok enc)
     (hsub : ∀ f ∈ frags, f ∈ enc) (force : Bool) :
     decode env (xorBackend T) (xorInst k m ct) frags (80 + blockSize (xorInst k m ct) data.length) force = .ok data ∨
@@ -90,12 +90,12 @@ theorem decode_exact_or_error_xor (env : Env) (k m hd ct : Nat) (T : XorTable)
   obtain ⟨hE, _, hS, _, _⟩ := xor_contracts_for hT
   exact decode_exact_or_error env _ (xorInst T.k T.m ct) data enc frags hE hS
     (fun d p ms b e h => (xor_backend_errors_negative T d p ms b e).1 h) trivial
-    (xor_frontOK env T.k T.m T.hd ct data.length hshape hct hlv hl0 hlen) henc hsub force
+    (xor_frontOK_guard env T.k T.m T.hd ct data.length hshape hct hlv hl0 (encodeTooLarge_false_of_ok henc)) henc hsub force
 
 theorem reconstruct_exact_or_error_xor (env : Env) (k m hd ct : Nat) (T : XorTable)
     (hT : LecGen.xorTableFor hd m k = some T) (hct : ct < 256)
     (hlv : env.libver < 2 ^ 32) (hl0 : env.libver ≠ 0)
-    (data : Bytes) (hlen : data.length < 2 ^ 31 - 2 ^ 12) (enc frags : List Bytes)
+    (data : Bytes) (enc frags : List Bytes)
     (henc : encode env (xorBackend T) (xorInst k m ct) data = .ok enc)
     (hsub : ∀ f ∈ frags, f ∈ enc) (dest : Int) :
     reconstruct env (xorBackend T) (xorInst k m ct) frags (80 + blockSize (xorInst k m ct) data.length) dest
@@ -107,7 +107,7 @@ theorem reconstruct_exact_or_error_xor (env : Env) (k m hd ct : Nat) (T : XorTab
   obtain ⟨hE, _, hS, _, _⟩ := xor_contracts_for hT
   exact reconstruct_exact_or_error env _ (xorInst T.k T.m ct) data enc frags hE hS
     (fun d p ms dst b e h => (xor_backend_errors_negative T d p ms b e).2 dst h) trivial
-    (xor_frontOK env T.k T.m T.hd ct data.length hshape hct hlv hl0 hlen) henc hsub dest
+    (xor_frontOK_guard env T.k T.m T.hd ct data.length hshape hct hlv hl0 (encodeTooLarge_false_of_ok henc)) henc hsub dest
 
 /-- non-vacuity: with two of three fragments gone, (2,1) decode reports an error. -/
 example :
